@@ -1,10 +1,308 @@
-"""C13: structural clauses (see DESIGN.md section 4)."""
+"""C13 epoch samplers: purity (G11), epoch stepping (G10), rank slice / length (G12), modes (G8)."""
 from __future__ import annotations
 
-from rules import fwd as R_fwd
+import ast
+
+from rules import enum as R_enum
+from rules import pure as R_pure
+from sa.astutil import attr_chain, call_name, names_in, u
+from sa.defuse import ReachingDefs
+from sa.model import AnalysisError, own_calls, own_nodes
+from sa.norm import Normalizer, ceil_div, padd, pstr
+from sa.paths import PathEnumerator
 from .common import Ctx, plumbing
+
+MOD = "_dataloaders"
+BASE = "AbstractEpochSampler"
+PER_EPOCH = "get_samples_for_epoch_ignoring_distributed"
 
 
 def run(ctx: Ctx):
-    plumbing(ctx, 'S1')
-    return dict(explanation='plumbing clauses only (work in progress)', decided=['S1'], not_decided=[])
+    col, pkg, res = ctx.col, ctx.pkg, ctx.res
+    rel = pkg.module(MOD).relname
+    base = pkg.cls(f"{MOD}::{BASE}")
+    subs = [c for c in res.subclasses(base)]
+    col.floor("sampler_subclasses", len(subs), 2)
+    finals, why_not = R_pure.final_fields(pkg, res, base)
+    col.count("final_fields", len(finals))
+    if "epoch" in finals:
+        raise AnalysisError("C13: `epoch` is classified final although __iter__ advances it")
+
+    # ---- S1 order is a function of (seed, epoch) alone ---------------------------------
+    entry = []
+    for c in [base] + subs:
+        for m in c.methods.get(PER_EPOCH, []):
+            entry.append(m)
+        for m in c.methods.get("get_samples_for_epoch", []):
+            entry.append(m)
+    col.floor("per_epoch_functions", len(entry), 4)
+    for f0 in entry:
+        for f in R_pure.reachable_self_methods(res, f0):
+            where = f"{f.module.relname}::{f.qualname}"
+            is_abstract = f.has_decorator("abstractmethod")
+            rng = R_pure.global_rng_calls(f)
+            col.ob("G11", "S1", f"{where}::no-global-rng", not rng,
+                   f"the per-epoch order draws from a process-global random source "
+                   f"`{rng[0][1] if rng else ''}`: the order depends on how much randomness was consumed before",
+                   rel, rng[0][0].lineno if rng else f.line, sample=dict(function=f.qualname, rng=[r[1] for r in rng]))
+            for attr, node in R_pure.self_attr_reads(f):
+                if f.cls and res.find_method(f.cls, attr):
+                    continue  # method reference
+                ok = attr in finals
+                col.ob("G11", "S1", f"{where}::reads-final(self.{attr})", ok,
+                       f"`self.{attr}` is read while computing an epoch's order but is mutable state "
+                       f"({why_not.get(attr, 'never assigned in __init__')}): the order is not a function of "
+                       f"(seed, epoch) alone", rel, node.lineno, sample=dict(function=f.qualname, attr=attr))
+            wr = R_pure.self_attr_writes(f)
+            col.ob("G11", "S1", f"{where}::no-self-writes", not wr,
+                   f"`self.{wr[0][0] if wr else ''}` is assigned while computing an epoch's order "
+                   f"(asking for an epoch's order must not change later answers)", rel,
+                   wr[0][1].lineno if wr else f.line, sample=dict(function=f.qualname))
+            if is_abstract:
+                continue
+            params = {p.name for p in f.params}
+            for call, seed in R_pure.local_generators(f):
+                if seed is None:
+                    col.ob("G11", "S1", f"{where}::generator-seeded", False,
+                           "a local generator is created without an explicit seed", rel, call.lineno)
+                    continue
+                rd = ReachingDefs(f.node)
+                der = rd.derives(seed)
+                free_params = der.params() - {"self"}
+                attrs = {n.attr for n in der.nodes() if isinstance(n, ast.Attribute)
+                         and isinstance(n.value, ast.Name) and n.value.id == "self"}
+                ok_names = free_params <= {"epoch"} and attrs <= finals
+                extra_calls = [u(c) for c in der.calls() if c is not call]
+                col.ob("G11", "S1", f"{where}::seed-free-names", ok_names and not extra_calls,
+                       f"the generator seed `{u(seed)}` depends on {sorted(free_params | {'self.' + a for a in attrs})} "
+                       f"{extra_calls}; only final fields and the `epoch` parameter are allowed", rel, call.lineno,
+                       sample=dict(seed=u(seed), params=sorted(free_params), attrs=sorted(attrs)))
+                col.ob("G11", "S1", f"{where}::seed-uses-epoch-and-base-seed",
+                       "epoch" in free_params and "base_seed" in attrs,
+                       f"the generator seed `{u(seed)}` does not combine the sampler's base seed with the epoch "
+                       f"(documented: seeded with (base_seed, epoch))", rel, call.lineno,
+                       sample=dict(seed=u(seed)))
+    # the random sampler must use a local generator for its permutation
+    rnd = pkg.cls(f"{MOD}::EpochRandomSampler")
+    f = res.find_method(rnd, PER_EPOCH)[0]
+    gens = R_pure.local_generators(f)
+    col.ob("G11", "S1", f"{rel}::EpochRandomSampler.{PER_EPOCH}::has-local-generator", len(gens) >= 1,
+           "EpochRandomSampler's per-epoch order is not drawn from a locally seeded generator", rel, f.line)
+    rd = ReachingDefs(f.node)
+    for st, env in rd.return_envs:
+        der = rd.derives(st.value)
+        src = [c for c in der.calls() if isinstance(c.func, ast.Attribute) and c.func.attr in
+               ("permutation", "shuffle", "choice", "randint", "random", "integers")]
+        ok = False
+        for c in src:
+            recv = rd.derives(c.func.value)
+            if any(call_name(cc).split(".")[-1] in ("RandomState", "default_rng") for cc in recv.calls()):
+                ok = True
+            # the permuted extent must be the data-set size
+            if c.func.attr == "permutation" and c.args:
+                col.ob("G12", "S3", f"{rel}::EpochRandomSampler.{PER_EPOCH}::permutes-total",
+                       u(c.args[0]) == "self.total",
+                       f"the epoch order permutes `{u(c.args[0])}`, not the whole data set (self.total)", rel,
+                       c.lineno, sample=u(c))
+        col.ob("G11", "S1", f"{rel}::EpochRandomSampler.{PER_EPOCH}::returns-local-draw", ok,
+               "the returned order does not derive from a draw of the locally seeded generator", rel, st.lineno,
+               sample=u(st.value))
+    seq = pkg.cls(f"{MOD}::EpochSequentialSampler")
+    f = res.find_method(seq, PER_EPOCH)[0]
+    for st, env in ReachingDefs(f.node).return_envs:
+        col.ob("G12", "S3", f"{rel}::EpochSequentialSampler.{PER_EPOCH}::range-total",
+               u(st.value) in ("range(self.total)", "iter(range(self.total))"),
+               f"the sequential order is `{u(st.value)}`, expected range(self.total)", rel, st.lineno,
+               sample=u(st.value))
+
+    # ---- S2 __iter__ yields the current epoch, then advances by exactly one ----------------
+    it = res.find_method(base, "__iter__")[0]
+    where = f"{rel}::{it.qualname}"
+
+    def ev(n):
+        if isinstance(n, ast.Call) and isinstance(n.func, ast.Attribute) and n.func.attr == "get_samples_for_epoch" \
+                and u(n.func.value) == "self":
+            return "GET(" + ",".join(u(a) for a in n.args) + ")"
+        if isinstance(n, ast.AugAssign) and u(n.target) == "self.epoch":
+            return f"EPOCH{type(n.op).__name__}={u(n.value)}"
+        if isinstance(n, ast.Assign) and any(u(t) == "self.epoch" for t in n.targets):
+            return f"EPOCH:={u(n.value)}"
+        return None
+
+    paths = PathEnumerator(ev, keep_all_ifs=True).paths(it.node.body)
+    col.floor("iter_paths", len(paths), 1)
+    for p in paths:
+        labs = p.labels()
+        ok = labs in (["GET(self.epoch)", "EPOCHAdd=1"],) and p.exit == "return"
+        col.ob("G10", "S2", f"{where}::path", ok,
+               f"__iter__ must take the order of `self.epoch` and then advance it by exactly 1; path does {labs}",
+               rel, it.line, sample=labs)
+        if p.exit == "return":
+            rd = ReachingDefs(it.node)
+            der = rd.derives(p.exit_node.value)
+            okr = any(isinstance(c.func, ast.Attribute) and c.func.attr == "get_samples_for_epoch" for c in der.calls())
+            col.ob("G10", "S2", f"{where}::returns-epoch-order", okr,
+                   "__iter__ does not return the order computed for the current epoch", rel, p.exit_node.lineno)
+    # subclasses must not override __iter__/__len__/get_samples_for_epoch with different logic
+    for c in subs:
+        for name in ("__iter__", "__len__", "get_samples_for_epoch"):
+            col.ob("G10", "S2", f"{rel}::{c.name}::inherits({name})", name not in c.methods,
+                   f"{c.name} overrides {name}; the epoch/rank logic is only verified on {BASE}", rel,
+                   c.node.lineno, nontrivial=False)
+
+    # ---- S3 rank slice and length ------------------------------------------------------------
+    g = res.find_method(base, "get_samples_for_epoch")[0]
+    where = f"{rel}::{g.qualname}"
+    triple = None
+    rdg = ReachingDefs(g.node)
+    for st, env in rdg.return_envs:
+        v = st.value
+        if isinstance(v, ast.Call) and call_name(v).split(".")[-1] == "islice" and len(v.args) == 4:
+            triple = (v.args[1], v.args[2], v.args[3])
+            src = rdg.derives(v.args[0])
+            oks = any(isinstance(c.func, ast.Attribute) and c.func.attr == PER_EPOCH and
+                      [u(a) for a in c.args] == ["epoch"] for c in src.calls())
+            col.ob("G12", "S3", f"{where}::slices-the-epoch-order", oks,
+                   "the rank slice is not taken from get_samples_for_epoch_ignoring_distributed(epoch)", rel,
+                   st.lineno, sample=u(v))
+        elif isinstance(v, ast.Subscript) and isinstance(v.slice, ast.Slice):
+            triple = (v.slice.lower, v.slice.upper, v.slice.step)
+    if triple is None:
+        raise AnalysisError("C13: cannot find the rank slice (islice / slice subscript) in get_samples_for_epoch")
+    tnames = [u(x) if x is not None else None for x in triple]
+    col.ob("G12", "S3", f"{where}::slice-triple", tnames == ["self._rank", "self.effective_total", "self._world_size"],
+           f"rank slice is (start, stop, step) = {tnames}; expected (self._rank, self.effective_total, "
+           f"self._world_size) for a disjoint exact cover", rel, g.line, sample=tnames)
+    ln = res.find_method(base, "__len__")[0]
+    rets = [st for st, _ in ReachingDefs(ln.node).return_envs]
+    if len(rets) != 1:
+        raise AnalysisError("C13: __len__ has several returns")
+    cd = ceil_div(rets[0].value)
+    n = Normalizer()
+    want = padd(n.poly(triple[1]), n.poly(triple[0]), -1)
+    okl = cd is not None and not padd(cd[0], want, -1) and not padd(cd[1], n.poly(triple[2]), -1)
+    col.ob("G12", "S3", f"{rel}::{ln.qualname}::ceil((stop-start)/step)", okl,
+           f"__len__ returns `{u(rets[0].value)}` which is not ceil((stop - start) / step) of the rank slice "
+           f"{tnames}" + (f" (normalises to ceil(({pstr(cd[0])}) / ({pstr(cd[1])})))" if cd else ""),
+           rel, rets[0].lineno, sample=dict(len=u(rets[0].value), slice=tnames))
+
+    # ---- S4 / S3 __init__: world handling ------------------------------------------------------
+    init = res.find_method(base, "__init__")[0]
+    where = f"{rel}::{init.qualname}"
+    members, cmpd = R_enum.g8_dispatch(pkg, res, col, init, "on_uneven_distributed", "S4", allow_else=0)
+    R_enum.g8_validation(pkg, res, col, init, "on_uneven_distributed", "S4", members)
+    drop_ok = raise_ok = False
+    rank_ok = world_ok = False
+    from sa.astutil import guards_of, parent_map
+    pm = parent_map(init.node)
+    for nnode in own_nodes(init.node):
+        if isinstance(nnode, ast.Assign) and len(nnode.targets) == 1:
+            t = u(nnode.targets[0])
+            gs = [(u(tt), pol) for tt, pol in guards_of(pm, nnode)]
+            if t == "self.effective_total" and any("'drop'" in g and pol for g, pol in gs):
+                w = n.poly(ast.parse("self.total - self.total % self._world_size", mode="eval").body)
+                drop_ok = not padd(n.poly(nnode.value), w, -1)
+            if t == "self._rank" and call_name(nnode.value) if isinstance(nnode.value, ast.Call) else False:
+                rank_ok = call_name(nnode.value) == "torch.distributed.get_rank"
+            if t == "self._world_size" and isinstance(nnode.value, ast.Call):
+                world_ok = call_name(nnode.value) == "torch.distributed.get_world_size"
+        if isinstance(nnode, ast.Raise):
+            gs = [(u(tt), pol) for tt, pol in guards_of(pm, nnode)]
+            if any("'raise'" in g and pol for g, pol in gs) and any("%" in g and pol for g, pol in gs):
+                raise_ok = True
+    col.ob("G12", "S3", f"{where}::drop-branch", drop_ok,
+           "under 'drop' effective_total is not total - total % world_size (ranks would get unequal counts)",
+           rel, init.line)
+    col.ob("G8", "S4", f"{where}::raise-branch", raise_ok,
+           "under 'raise' an indivisible size does not raise", rel, init.line)
+    col.ob("G12", "S3", f"{where}::rank-and-world", rank_ok and world_ok,
+           "self._rank / self._world_size are not taken from torch.distributed.get_rank/get_world_size", rel,
+           init.line)
+    # 'ignore' gives every rank the whole epoch: the distributed branch is guarded by != 'ignore' and the
+    # fallback sets (_rank, _world_size) = (0, 1)
+    fb = {}
+    for nnode in own_nodes(init.node):
+        if isinstance(nnode, ast.Assign) and len(nnode.targets) == 1 and u(nnode.targets[0]) in (
+                "self._rank", "self._world_size") and isinstance(nnode.value, ast.Constant):
+            fb[u(nnode.targets[0])] = nnode.value.value
+    col.ob("G8", "S4", f"{where}::ignore-fallback", fb == {"self._rank": 0, "self._world_size": 1},
+           f"the non-distributed / 'ignore' fallback sets {fb}, expected rank 0 of world 1", rel, init.line,
+           sample=fb)
+    plumbing(ctx, "S4")
+    return dict(
+        explanation=(
+            "Decides for C13: (S1) every function computing an epoch's order (both samplers, all overrides, "
+            "transitively through self-calls) draws from no process-global RNG, reads only final fields of "
+            "self (fields assigned only in __init__ anywhere in the package), writes no field, and seeds its "
+            "local generator from (base_seed, epoch) only; (S2) __iter__ takes the order of self.epoch then "
+            "advances it by exactly 1 on its only path; (S3) the rank slice is (rank, effective_total, world) "
+            "over the epoch order and __len__ normalises to ceil((stop-start)/step); drop sets effective_total "
+            "= total - total % world; (S4) the four uneven-handling modes are validated and dispatched "
+            "exhaustively. Disjointness/cover/equal counts follow from the (start, stop, step) triple by "
+            "arithmetic. NOT decided: numpy RandomState / islice semantics (trusted)."),
+        decided=["S1", "S2", "S3", "S4"],
+        not_decided=["numpy.random.RandomState determinism", "itertools.islice semantics"],
+        assumptions=["numpy.random.RandomState(seed).permutation is a deterministic function of seed",
+                     "torch.distributed.get_rank/get_world_size are constant during a run"],
+    )
+
+
+MANIFEST = dict(
+    level_text=(
+        "Static effect/purity analysis + linear-form normalisation (no execution): the per-epoch order "
+        "functions of both samplers are pure in (final fields, epoch) with a locally seeded generator; "
+        "__iter__ steps the epoch by exactly one after taking the current order; the per-rank slice and "
+        "__len__ agree as (rank, effective_total, world) and ceil((stop-start)/step); all four "
+        "on_uneven_distributed modes are handled. From these the exact-partition statement follows by "
+        "arithmetic over (N, world, rank); numpy/itertools semantics are trusted."),
+    level_note="Trusted: python ast, numpy RandomState determinism, itertools.islice. Fields are 'final' if "
+               "assigned only in __init__ of the sampler hierarchy and never through another object in the package.",
+    technique="static analysis: effect/purity analysis (RNG sources, final fields), reaching definitions, linear normal forms",
+    design_ref="DESIGN.md section 4 C13, section 3 G11/G12/G8/G10",
+)
+
+
+def _mutants():
+    from selftest.mutate import Mutant as M
+    T = "_dataloaders.py"
+    return [
+        M("seed-reads-self-epoch", T, "np.random.RandomState((self.base_seed, epoch))",
+          "np.random.RandomState((self.base_seed, self.epoch))", "reads-final(self.epoch)"),
+        M("global-permutation", T, "shuffled = rs.permutation(self.total)",
+          "shuffled = np.random.permutation(self.total)", "no-global-rng"),
+        M("torch-randperm", T, "shuffled = rs.permutation(self.total)",
+          "shuffled = torch.randperm(self.total).tolist()", "no-global-rng"),
+        M("seed-without-epoch", T, "np.random.RandomState((self.base_seed, epoch))",
+          "np.random.RandomState((self.base_seed, 0))", "seed-uses-epoch-and-base-seed"),
+        M("epoch-step-2", T, "self.epoch += 1", "self.epoch += 2", "G10/S2"),
+        M("epoch-step-before", T, "ret = self.get_samples_for_epoch(self.epoch)\nself.epoch += 1",
+          "self.epoch += 1\nret = self.get_samples_for_epoch(self.epoch)", "G10/S2"),
+        M("iter-no-step", T, "ret = self.get_samples_for_epoch(self.epoch)\nself.epoch += 1",
+          "ret = self.get_samples_for_epoch(self.epoch)", "G10/S2"),
+        M("islice-stop-total", T, "islice(ret, self._rank, self.effective_total, self._world_size)",
+          "islice(ret, self._rank, self.total, self._world_size)", "slice-triple"),
+        M("islice-start-0", T, "islice(ret, self._rank, self.effective_total, self._world_size)",
+          "islice(ret, 0, self.effective_total, self._world_size)", "slice-triple"),
+        M("len-off-by-one", T, "(self.effective_total - self._rank + self._world_size - 1) // self._world_size",
+          "(self.effective_total - self._rank + self._world_size) // self._world_size", "ceil((stop-start)/step)"),
+        M("len-ignores-rank", T, "(self.effective_total - self._rank + self._world_size - 1) // self._world_size",
+          "(self.effective_total + self._world_size - 1) // self._world_size", "ceil((stop-start)/step)"),
+        M("drop-branch-wrong", T, "self.effective_total = self.total - self.total % self._world_size",
+          "self.effective_total = self.total - self._world_size", "drop-branch"),
+        M("mode-typo", T, "elif on_uneven_distributed == 'drop':", "elif on_uneven_distributed == 'dorp':", "G8/S4"),
+        M("raise-arm-lost", T, "if on_uneven_distributed == 'raise':", "if on_uneven_distributed == 'uneven':", "G8/S4"),
+        M("per-epoch-writes-self", T, "rs = np.random.RandomState((self.base_seed, epoch))",
+          "self.last_seeded = epoch\nrs = np.random.RandomState((self.base_seed, epoch))", "no-self-writes"),
+        M("permute-effective-total", T, "rs.permutation(self.total)", "rs.permutation(self.effective_total)",
+          "permutes-total"),
+        M("sequential-from-one", T, "return range(self.total)", "return range(1, self.total)", "range-total"),
+        M("fallback-rank-1", T, "self._rank = 0\nself._world_size = 1", "self._rank = 1\nself._world_size = 1",
+          "ignore-fallback"),
+        M("twin:rename-ret", T, "ret = self.get_samples_for_epoch_ignoring_distributed(epoch)\nreturn islice(ret,",
+          "order = self.get_samples_for_epoch_ignoring_distributed(epoch)\nreturn islice(order,", "", twin=True),
+    ]
+
+
+def selftest(ctx: Ctx):
+    from selftest.mutate import run_selftest
+    return run_selftest("C13", ctx.pkg.repo, _mutants(), floor=16)
